@@ -74,6 +74,13 @@ def run(chk):
                             c = Case(prog, mem=pk, xmem=prev, fam=name + ':after-other-packet')
                             lines.append(c.line(engine=eng, kind='fixed') + ' d=%d e=%d prev=1' % (d, e))
                             meta.append(('fixed', eng, name, pk, (d, e), c))
+                        # ... and first on a shorter packet at the same address (a receive buffer reused with another length): both words
+                        # must be rewritten on every execution
+                        if name.startswith('fixed-') and ln >= 2:
+                            for pl in sorted({1, ln // 2}):
+                                c = Case(prog, mem=pk, fam=name + ':after-shorter-prefix')
+                                lines.append(c.line(engine=eng, kind='fixed') + ' d=%d e=%d prevlen=%d' % (d, e, pl))
+                                meta.append(('fixed', eng, name, pk, (d, e), c))
         answers = [parse_answer(x) for x in vlib.harness_run(binary, lines)]
         nchecked = 0
         outs = {}
